@@ -167,7 +167,7 @@ mutual
       Schema.eqvOpt f x.items y.items && Schema.eqvOpt f x.addl y.addl && x.hasNot == y.hasNot &&
       x.required == y.required && Schema.eqvKvs f x.props y.props && Schema.eqvKvs f x.defs y.defs &&
       Schema.eqvList f x.allOf y.allOf && optJsonEq x.default y.default && x.ext == y.ext &&
-      x.dereferenced == y.dereferenced
+      x.dereferenced == y.dereferenced && x.emptyKw == y.emptyKw
   def Schema.eqvOpt : Nat → Option Schema → Option Schema → Bool
     | _, none, none => true
     | 0, _, _ => false
